@@ -610,19 +610,24 @@ impl<'a, 'b> Walker<'a, 'b> {
             }
             prefix.push(op);
             let depth = prefix.len();
-            let shallow = depth <= self.split_depth;
-            let mut child_owned = owned;
-            if depth == self.split_depth {
-                child_owned = self.run.ctx.mine(self.unit_seq);
-                self.unit_seq += 1;
-            }
-            let reporting = if shallow {
+            // nodes above the split depth are executed by every worker (their verdict decides whether
+            // to descend) and reported by one; a node AT the split depth roots a unit of work that
+            // exactly one worker executes, reports and descends into
+            let (execute, reporting, child_owned) = if depth < self.split_depth {
                 let m = self.run.ctx.mine(self.shallow_seq);
                 self.shallow_seq += 1;
-                m
+                (true, m, owned)
+            } else if depth == self.split_depth {
+                let m = self.run.ctx.mine(self.unit_seq);
+                self.unit_seq += 1;
+                (m, m, m)
             } else {
-                true
+                (true, true, owned)
             };
+            if !execute {
+                prefix.pop();
+                continue;
+            }
             if self.run.ctx.expired() {
                 self.rep.capped("deadline reached during history enumeration");
                 self.stop = true;
